@@ -10,7 +10,7 @@ PROPS_FILE = 'Props/C12.v'
 PARALLEL = False
 RULE = ('real compute_features_3d / BycycleGroup.fit for every shape (n0, n1) in {1,2,3}^2 (incl. n0 != n1 and size-1 '
         'dimensions), the three axis modes, shared dict / 1-D per-slice list / 2-D per-signal list of pairwise different '
-        'option sets, n_jobs in {1, 3}, perturbed completion orders; every returned table matched against candidates computed '
+        'option sets, C-ordered / Fortran-ordered / transposed-view arrays, n_jobs in {1, 3}, perturbed completion orders; every returned table matched against candidates computed '
         'directly (compute_features for axis=(0,1); compute_features_2d(axis=None) of every row / column slice for axis 0 / 1); '
         'placement matrix compared with the model; non-trivial = n0*n1 >= 2')
 EXHAUSTIVE = {'quick': False, 'thorough': True}
@@ -29,9 +29,9 @@ def _one(rng, n0, n1, ax, mode):
     else:
         kw = rng.sample(range(len(gl.KW_POOL)), n0 if ax == 0 else n1)
     return {'kind': 'g3d/ax%d/%s' % (ax, mode), 'n0': n0, 'n1': n1, 'ax': ax, 'kw': kw, 'shared': rng.randrange(len(gl.KW_POOL)),
-            'sig_ids': rng.sample(range(40), n0 * n1), 'n_jobs': rng.choice([1, 3]),
+            'sig_ids': rng.sample(range(40), n0 * n1), 'n_jobs': rng.choice([1, 2, 3, 4]),
             'schedule': rng.choice(['reverse', 'first_slow', 'zigzag', 'none']), 'via': (rng.choice(['func', 'func', 'group']) if kw is None else 'func'),
-            'return_samples': True}
+            'return_samples': True, 'layout': rng.choice(['C', 'C', 'F', 'view'])}
 
 
 def cases(rng, tier):
@@ -59,7 +59,7 @@ def run_impl(c):
     from bycycle.features import compute_features
     from bycycle.group import compute_features_2d, compute_features_3d
     n0, n1, ax = c['n0'], c['n1'], c['ax']
-    sigs = np.array([[gl.make_sig(c['sig_ids'][i * n1 + j]) for j in range(n1)] for i in range(n0)])
+    sigs = gl.relayout(np.array([[gl.make_sig(c['sig_ids'][i * n1 + j]) for j in range(n1)] for i in range(n0)]), c.get('layout', 'C'))
     if c['via'] == 'group' and c['kw'] is not None:
         c = dict(c, via='func')
     if c['kw'] is None:
